@@ -233,6 +233,12 @@ class RangesAssembler:
     def output(self):
         return self.range.ranges[0]['name']
 
+    @property
+    def missing_names(self):
+        sheet_id = self.range.ranges[0]['sheet_id']
+        _name = f'{sheet_id}!%s' if sheet_id else '%s'
+        return {_name % '{}{}'.format(_index2col(n), r) for n, r in self.missing}
+
     def push(self, indices, output=None):
         it = {i for i in self.missing if i in indices}
         if it:
